@@ -361,6 +361,8 @@ class Executor:
                 if n == fname:
                     return t
             return ("unknown", "no field %s" % fname)
+        if variant is None:
+            return app("field", v, lit(fname))       # destructuring a struct = reading its fields
         return app("proj", v, lit(variant), lit(fname))
 
     def _match_optres(self, p, v, st, variant):
@@ -992,6 +994,18 @@ class Executor:
             results.append(pushes[0]["args"][2])
         if any(x["k"] == "call" and len(x["args"]) > 1 and x["args"][1] == obj for x in st.eff[:-1]):
             return      # not empty when the loop starts
+        itv = e["args"][0]
+        if len(paths) == 1 and not e.get("exits") and all(x is pushes0 for x in paths[0]["eff"] for pushes0 in [[y for y in paths[0]["eff"] if is_push(y)][0]]
+                                                          if x["k"] not in ("assume", "arm")) and itv[0] == "iter" and all(f == "enumerate" for f in itv[3]) and not itv[3]:
+            # nothing but the push happens: the pure element-wise mapping `base.iter().map(f).collect()`
+            coll = app("map_of", ("iter", itv[1], itv[2], ()), results[0], e["elem"])
+            if st.eff and st.eff[-1] is e:
+                st.eff.pop()
+            for k2 in list(st.env):
+                st.env[k2] = _subst_term(st.env[k2], obj, coll)
+            for k2 in list(st.fields):
+                st.fields[k2] = _subst_term(st.fields[k2], obj, coll)
+            return
         e["results"] = results
         e["driver"] = "collect"
         e["pipeline"] = ("map",)
@@ -1044,6 +1058,8 @@ class Executor:
             if lid in st.env:
                 st.env[lid] = ("sym", next(self.counter), "after_loop:" + name)
         outs = [(st, ("val", UNIT))]
+        if src == "Loop" and not any(p["out"][0] == "brk" for p in paths):
+            outs = []        # `loop { .. }` without a `break` is only ever left through return / panic
         for p in exits:
             s2 = st.fork()
             s2.eff[-1] = dict(e, taken_exit=True)
@@ -1153,6 +1169,20 @@ class Executor:
             self.effect(st, kind, spec.get("args", ()), result=r, node=node, **spec.get("extra", {}))
             return [(st, ("val", r))]
         raise Unsupported("tracked result kind " + res_kind)
+
+
+def vec_contents(obj, effs):
+    """elements of a vector object that was only ever pushed to, one element at a time, outside loops: tuple, else None"""
+    out = []
+    for e in effs:
+        if e["k"] in ("foreach", "loop") and _mentions_term({k: v for k, v in e.items() if k in ("paths", "exits", "args")}, obj):
+            return None
+        if e["k"] == "call" and len(e["args"]) > 1 and e["args"][1] == obj:
+            if e["args"][0][1].endswith("::push") and len(e["args"]) == 3:
+                out.append(e["args"][2])
+            elif not e["args"][0][1].endswith(("::len", "::is_empty", "::iter", "::as_slice")):
+                return None
+    return tuple(out)
 
 
 def _subst_term(t, a, b):
